@@ -37,7 +37,7 @@ def _run_on_tree(prop, tree):
         return {"status": "analysis-error", "detail": f"{type(e).__name__}: {e}"[:200], "new": 0}
     new, known, stale = rep.split_violations(r)
     if new:
-        return {"status": "violation", "new": len(new),
+        return {"status": "violation", "new": len(new), "rules": sorted({i.rule for i in new}),
                 "first": f"{new[0].rule} {new[0].where()}: {new[0].construct}"[:220]}
     if r.analysis_errors:
         return {"status": "analysis-error", "detail": r.analysis_errors[0][:200], "new": 0}
